@@ -33,7 +33,10 @@ def explore_getter_orders(make, getters: dict, depth: int = 3, words=None):
     names = list(getters)
     ref = {}
     for g in names:
-        ref[g] = obs_digest(getters[g](make()))
+        try:
+            ref[g] = obs_digest(getters[g](make()))
+        except Exception as e:      # the getter fails on a fresh object: that IS its reference observation here (whether
+            ref[g] = f"raises {type(e).__name__}"   # it may fail is judged by the driver's direct comparison, not here)
     bad = []
     calls = len(names)
     if words is None:
@@ -45,6 +48,8 @@ def explore_getter_orders(make, getters: dict, depth: int = 3, words=None):
             try:
                 o = obs_digest(getters[g](obj))
             except Exception as e:
+                if ref[g] == f"raises {type(e).__name__}":
+                    continue
                 bad.append((list(w), pos, g, ref[g], f"raises {type(e).__name__}: {str(e)[:60]}"))
                 break
             if o != ref[g]:
